@@ -166,7 +166,7 @@ class C03(Prop):
                     off = 'raised %s' % type(e).__name__
                 if isinstance(off, float) and ref.same(on[i], off, rel):
                     continue     # offline itself deviates from the reference: reported by C01, not here
-                known = None        # (D-past-over-future was repaired for discrete time, 895bb5b: nothing is attributed here)
+                known = None        # (D-past-over-future was repaired for discrete time, b0751cf: nothing is attributed here)
                 if known and i + 1 < n and not v.viol:
                     # explained by the open finding at this update: remember it, but keep looking for an update
                     # that the defect model does NOT explain (another defect on the same formula)
